@@ -138,6 +138,39 @@ def pdf_case(rnd, D):
     return desc, x, got, goal(term, got), probs
 
 
+def zdraw(call):
+    """the standard normal array behind a recorded generator call (normal(0, 1, ...) or standard_normal(...)), else None"""
+    name, a, kw, res = call
+    if name == "standard_normal":
+        return numpy.asarray(res, dtype=float)
+    if name == "normal":
+        loc = kw.get("loc", a[0] if len(a) > 0 else 0.0)
+        scale = kw.get("scale", a[1] if len(a) > 1 else 1.0)
+        if numpy.all(numpy.asarray(loc, dtype=float) == 0.0) and numpy.all(numpy.asarray(scale, dtype=float) == 1.0):
+            return numpy.asarray(res, dtype=float)
+    return None
+
+
+def laplace_image(call, mu, b, d):
+    """the Laplace(mu, b) sample a recorded laplace(...) call stands for: drawn directly, or shifted / scaled afterwards"""
+    name, a, kw, res = call
+    if name != "laplace":
+        return None
+    loc = numpy.asarray(kw.get("loc", a[0] if len(a) > 0 else 0.0), dtype=float)
+    scale = numpy.asarray(kw.get("scale", a[1] if len(a) > 1 else 1.0), dtype=float)
+    res = numpy.asarray(res, dtype=float).reshape(d, -1)
+    col_ = lambda v: v.reshape(-1, 1) if v.size > 1 else v
+    loc_is_mu, loc_is_0 = numpy.array_equal(col_(loc) * numpy.ones((d, 1)), mu), numpy.all(loc == 0.0)
+    sc_is_b, sc_is_1 = numpy.array_equal(col_(scale) * numpy.ones((d, 1)), b), numpy.all(scale == 1.0)
+    if loc_is_mu and sc_is_b:
+        return res
+    if loc_is_0 and sc_is_b:
+        return mu + res
+    if loc_is_0 and sc_is_1:
+        return mu + b * res
+    return None
+
+
 def generate_case(rnd, D, k):
     """generate(repeat, rng) must draw from the rng it is given and return the push-forward image."""
     d = rnd.choice([1, 2, 3])
@@ -150,34 +183,28 @@ def generate_case(rnd, D, k):
     if kind == "std1d":
         obj, d = D.StandardNormal1D(), 1
         s = obj.generate(repeat, rng=rng)
-        want = rng.calls[0][3] if rng.calls else None
+        want = zdraw(rng.calls[0]) if rng.calls else None
+        if want is None and rng.calls and rng.calls[0][0] == "normal":
+            want = rng.calls[0][3]
     elif kind in ("normal_scalar", "normal_vec"):
         v = distgen.pos(rnd) if kind == "normal_scalar" else distgen.col([distgen.pos(rnd) for _ in range(d)])
         obj = D.Normal(mu.copy(), v if kind == "normal_scalar" else v.copy())
         s = obj.generate(repeat, rng=rng)
-        if rng.calls and rng.calls[0][0] == "normal":
-            want = rng.calls[0][3] * numpy.sqrt(v) + mu
+        if rng.calls and zdraw(rng.calls[0]) is not None:
+            want = zdraw(rng.calls[0]) * numpy.sqrt(v) + mu
     elif kind == "normal_full":
         a = numpy.array([[distgen.dy(rnd, -1, 1) for _ in range(d)] for _ in range(d)])
         cov = a @ a.T + numpy.diag([distgen.pos(rnd) for _ in range(d)])
         obj = D.Normal(mu.copy(), cov.copy())
         s = obj.generate(repeat, rng=rng)
-        if rng.calls and rng.calls[0][0] == "normal":
-            want = numpy.linalg.cholesky(cov) @ rng.calls[0][3] + mu
+        if rng.calls and zdraw(rng.calls[0]) is not None:
+            want = numpy.linalg.cholesky(cov) @ zdraw(rng.calls[0]) + mu
     elif kind == "laplace":
         b = distgen.col([distgen.pos(rnd) for _ in range(d)])
         obj = D.Laplace(mu.copy(), b.copy())
         s = obj.generate(repeat, rng=rng)
         if rng.calls and rng.calls[0][0] == "laplace":
-            a_, kw = rng.calls[0][1], rng.calls[0][2]
-            loc = kw.get("loc", a_[0] if len(a_) > 0 else 0.0)
-            scale = kw.get("scale", a_[1] if len(a_) > 1 else 1.0)
-            if numpy.array_equal(numpy.asarray(loc, dtype=float).reshape(-1, 1), mu) and numpy.array_equal(numpy.asarray(scale, dtype=float).reshape(-1, 1), b):
-                want = rng.calls[0][3]
-            elif numpy.all(numpy.asarray(loc, dtype=float) == 0.0) and numpy.all(numpy.asarray(scale, dtype=float) == 1.0):
-                want = mu + b * numpy.asarray(rng.calls[0][3]).reshape(d, -1)        # the same law from standard Laplace draws
-            else:
-                out.append(("generate-parameters", f"Laplace.generate draws laplace(loc={loc}, scale={scale}) for means {col(mu)}, dispersions {col(b)}"))
+            want = laplace_image(rng.calls[0], mu, b, d)
     elif kind == "uniform":
         lo = distgen.col([distgen.dy(rnd, -4, -1) for _ in range(d)])
         hi = distgen.col([distgen.dy(rnd, 1, 4) for _ in range(d)])
@@ -207,7 +234,10 @@ def generate_case(rnd, D, k):
         if len(rng.calls) == 3:
             c = rng.calls
             upart = c[2][3] if c[2][0] == "uniform" else (-1.0 + 3.0 * numpy.asarray(c[2][3]).reshape(1, -1))     # uniform(-1, 2), or the same from unit uniforms
-            want = numpy.vstack([c[0][3] * numpy.sqrt(parts[0].covariance) + parts[0].means, c[1][3], upart])
+            zpart = zdraw(c[0])
+            lpart = laplace_image(c[1], numpy.asarray(parts[1].means, dtype=float), numpy.asarray(parts[1].dispersions, dtype=float), 1)
+            if zpart is not None and lpart is not None:
+                want = numpy.vstack([zpart * numpy.sqrt(parts[0].covariance) + parts[0].means, lpart, upart])
     elif kind == "mixture":
         weights = rnd.choice([[0.25, 0.75], [0.0, 0.25, 0.75], [0.2, 0.3, 0.5], [0.5, 0.0, 0.5], [0.02, 0.9, 0.08]])
         repeat = rnd.choice([1, 2, 5, 12])
@@ -218,9 +248,9 @@ def generate_case(rnd, D, k):
         # every returned column is the image, under the component the generator's choice picked, of a standard normal
         # column the generator produced; the number of columns per component is the number of times it was picked
         picks = [c for c in rng.calls if c[0] == "choice"]
-        zcols = [numpy.asarray(c[3], dtype=float).reshape(d, -1)[:, j] for c in rng.calls if c[0] == "normal" for j in range(numpy.asarray(c[3]).reshape(d, -1).shape[1])]
+        zcols = [zdraw(c).reshape(d, -1)[:, j] for c in rng.calls if zdraw(c) is not None for j in range(zdraw(c).reshape(d, -1).shape[1])]
         sa = numpy.asarray(s, dtype=float)
-        if picks and sa.shape == (d, repeat):
+        if picks and zcols and sa.shape == (d, repeat):
             idx = [int(v) for v in numpy.asarray(picks[0][3]).flatten()]
             got = [0] * len(weights)
             unexplained = 0
@@ -246,8 +276,8 @@ def generate_case(rnd, D, k):
         base = rnd.choice([10.0, 2.0, 3.0])
         obj = D.TransformToLogSpace(inner, base=base)
         s = obj.generate(repeat, rng)
-        if rng.calls and rng.calls[0][0] == "normal":
-            want = numpy.power(base, rng.calls[0][3] * numpy.sqrt(inner.covariance) + inner.means)
+        if rng.calls and zdraw(rng.calls[0]) is not None:
+            want = numpy.power(base, zdraw(rng.calls[0]) * numpy.sqrt(inner.covariance) + inner.means)
     s = numpy.asarray(s)
     if s.shape != (d, repeat):
         out.append((f"generate-shape-{kind}", f"{type(obj).__name__}.generate({repeat}) has shape {s.shape}, expected {(d, repeat)}"))
